@@ -20,6 +20,7 @@ import (
 func TestSim(t *testing.T) {
 	simrt.Main(t, map[string]simrt.Prop{
 		"C01": {Run: runC01},
+		"C09": {Run: runC09},
 		"C05": {Run: runC05, Opt: simrt.Options{MaxSteps: 60000, StuckClause: "C05.deadlock", MaxStepsClause: "C05.livelock"}},
 		"C03": {Run: runHist("C03", genOpts{maxClusters: 2, maxSubs: 3, maxBackends: 4, maxWeight: 10, blackhole: true, zeroWeights: true, wlc: 1, sticky: 1, slowStart: true})},
 		"C04": {Run: runHist("C04", genOpts{maxClusters: 1, maxSubs: 2, maxBackends: 5, maxWeight: 10, wlc: 4, sticky: 0})},
